@@ -141,9 +141,12 @@ def main():
         meta['stubs'] += getattr(mod, 'STUBS', [])
         meta['assumptions'] += getattr(mod, 'ASSUMPTIONS', [])
         meta['bounds'].append(getattr(mod, 'BOUNDS', ''))
-    for m in spec.get('z', []):
+    for zent in spec.get('z', []):
+        m, only_groups = (zent, None) if isinstance(zent, str) else zent
         mod = load_module(os.path.join(ROOT, m))
         for g in mod.GROUPS(a.tier):
+            if only_groups is not None and g['group'] not in only_groups:
+                continue
             if a.only and a.only not in g['group']:
                 continue
             zjobs.append({'module': m, 'tier': a.tier, 'group': g['group'], 'timeout': g.get('timeout', 900)})
@@ -327,7 +330,11 @@ def main():
 
     print('%s tier=%s conditions=%d confirmed=%d inconclusive=%d paths=%d zqueries=%d solver_s=%.1f wall=%.0fs' % (
         prop, a.tier, len(results), confirmed, len(inconclusive), paths, zq, ss + zsolver, time.time() - t0))
+    seen_kf = set()
     for k, rec in kf_hits:
+        if k['id'] in seen_kf:
+            continue
+        seen_kf.add(k['id'])
         print('KNOWN-FINDING: property=%s %s' % (prop, k['what']))
     for e in errors:
         print('HARNESS-ERROR: ' + e[:1500])
